@@ -59,6 +59,6 @@ PROP = {
                   "bt/bts/btr/btc (offset modulo size), setcc (14 codes), movzx/movsx, lea, push/pop, jmp and call rel/indirect, ret/ret imm16, jcc (14 codes), jcxz/jecxz/jrcxz, loop*, cmovcc r,r: "
                   "1 810 of the 2 400 quick-tier encodings (75.4 %); memory and stack forms under a no-address-wrap condition on the state. The other 25 % (absolute/rip-relative operands, "
                   "shld/shrd, mul/div, bit strings, string instructions, cmovcc from memory, SSE) rest on the sampled-state comparison only.",
-    "level_note": "Differential against the processor for breadth (sampled states), proof for the helper layer only. Trusted: Coq kernel + vm_compute, the CPU and the native runner, "
+    "level_note": "Unbounded theorems + per-run syntactic tie for 1 810 of the 2 400 quick-tier encodings (75.4 %); differential against the processor and the Coq ISA specification (sampled states) for the rest. Trusted: Coq kernel + vm_compute, the CPU and the native runner, "
                   "the ISA transcription (validated against the CPU each run), the harness encoder/printer, Exec/Sem.v.",
 }
